@@ -1255,7 +1255,7 @@ func chainIDs() {
 		srcBefore := hx(src)
 		// a caller's slice usually has spare capacity and is a field of a block header (NewBlockHeaderInfoFromPrevBlock hands in the
 		// parent's ChainID): both shapes, capacity = length and capacity > length
-		if rng.Bool() {
+		if rng.Bool() && len(src) >= 4 { // (shorter than a version prefix: cid[:4] panics or not depending on the capacity; kept at capacity = length)
 			src = append(make([]byte, 0, len(src)+8), src...)
 		}
 		mk, panicked := vh.Guard(func() string { return hx(types.MakeChainId(src, v)) })
